@@ -41,6 +41,7 @@ of that file are used from the including file only when asked for through `featu
 both (known findings of C02).
 """
 import math
+import random
 import struct as _struct
 
 BASE = ["bool", "byte", "i8", "i16", "i32", "i64", "double", "string", "binary"]
@@ -459,18 +460,25 @@ def gen_struct_value(rng, program, sdef, depth=0):
             flat = [f for f in fields if head_kind(program, f["type"]) != "struct"]
             chosen = rng.choice(flat) if flat else chosen
         base = new_value(program, sdef)
+        val = None
+        for attempt in range(4):
+            f = chosen
+            val = _gen_field_set(rng, program, f, depth)
+            for _ in range(8):
+                # a chosen member holding exactly its declared default counts as unset in the generated Go (IsSet compares
+                # with the default): that value of the union does not exist on the Go side
+                if f.get("default") is None or val != f["default"]["value"]:
+                    break
+                val = gen_value(rng, program, f["type"], depth + 1)
+            if f.get("default") is None or val != f["default"]["value"]:
+                break
+            # the member's type has no other value (an enum of one value whose default is that value): another member
+            others = [x for x in fields if x is not chosen and not (depth >= 4 and head_kind(program, x["type"]) == "struct")]
+            if not others:
+                break
+            chosen = rng.choice(others)
         for f in fields:
-            if f is chosen:
-                val = _gen_field_set(rng, program, f, depth)
-                for _ in range(8):
-                    # a chosen member holding exactly its declared default counts as unset in the generated Go (IsSet compares
-                    # with the default): that value of the union does not exist on the Go side
-                    if f.get("default") is None or val != f["default"]["value"]:
-                        break
-                    val = gen_value(rng, program, f["type"], depth + 1)
-                v[f["id"]] = val
-            else:
-                v[f["id"]] = base[f["id"]]
+            v[f["id"]] = val if f is chosen else base[f["id"]]
         return v
     for f in fields:
         gk = go_kind(program, f)
@@ -831,6 +839,17 @@ class _Gen:
                     throws.append({"id": i + 1, "name": "e%d" % self.uid(), "mod": "default",
                                    "type": ["ref", vf, d["name"]], "default": None})
             methods.append({"name": mn, "oneway": oneway, "ret": ret, "args": args, "throws": throws})
+        # every other service has a method that returns a union of its file (what a handler returns there may be a value
+        # the generated Write refuses part-way); decided by a generator of its own: the main stream stays as it was
+        unions = [d for d in f["structs"] if d["kind"] == "union"]
+        own = random.Random("%s/%s/%d" % (self.pid, fn, len(f["services"])))
+        if unions and own.random() < 0.5:
+            mn = "pick%d" % self.uid()
+            if mn.lower() not in inherited:
+                u = own.choice(unions)
+                methods.append({"name": mn, "oneway": False, "ret": ["ref", fn, u["name"]],
+                                "args": [{"id": 1, "name": "whicha", "mod": "default", "type": ["i32"], "default": None}],
+                                "throws": []})
         svc = {"name": self.name(["Svc%d", "Store%d"] + (["my_service_%d"] if self.feat["snake_service"] else [])),
                "extends": ext, "methods": methods}
         f["services"].append(svc)
